@@ -415,9 +415,16 @@ def check(index, ctx):
             tgt = a.target.id if isinstance(a.target, ast.Name) else (a.target.value.id if isinstance(a.target.value, ast.Name) else None)
         elif n.kind == "stmt" and isinstance(a, ast.Assign) and isinstance(a.targets[0], ast.Subscript) and isinstance(a.targets[0].value, ast.Name):
             tgt = a.targets[0].value.id
-        elif n.kind == "stmt" and isinstance(a, ast.Expr) and isinstance(a.value, ast.Call) and isinstance(a.value.func, ast.Attribute) and a.value.func.attr.endswith("_") \
-                and not a.value.func.attr.startswith("_") and isinstance(a.value.func.value, ast.Name):
-            tgt = a.value.func.value.id
+        elif n.kind == "stmt" and isinstance(a, (ast.Expr, ast.Assign, ast.Return)) and a.value is not None:
+            # x.op_(...), also chained x.div_(a).mul_(b) and `y = x.mul_(c)`: every in-place method whose receiver chain starts at a name
+            for c in ast.walk(a.value):
+                if isinstance(c, ast.Call) and isinstance(c.func, ast.Attribute) and c.func.attr.endswith("_") and not c.func.attr.startswith("_"):
+                    base = c.func.value
+                    while isinstance(base, ast.Call) and isinstance(base.func, ast.Attribute):
+                        base = base.func.value
+                    if isinstance(base, ast.Name):
+                        tgt = base.id
+                        break
         if tgt is None or tgt in params_t:
             continue
         rd = reaching_defs(fcfg, tgt)[n]
